@@ -70,6 +70,11 @@ fn candidates(sc: &Scenario, vround: usize) -> Vec<Scenario> {
             s.rounds[ri].plan.fail.remove(d);
             out.push(s);
         }
+        for k in r.plan.fail_started.keys() {
+            let mut s = sc.clone();
+            s.rounds[ri].plan.fail_started.remove(k);
+            out.push(s);
+        }
         for (d, l) in r.plan.fail.iter() {
             if *l != Leave::Garbage {
                 let mut s = sc.clone();
@@ -319,7 +324,7 @@ pub fn trace(sc: &Scenario) {
             println!("  ENGINE ERROR: {}", e);
         }
         let mut probes = Probes::new();
-        let ctx = crate::oracle::OracleCtx { cfg: &sc.cfg, defs: &sc.defs, nondeterministic_outputs: false };
+        let ctx = crate::oracle::OracleCtx { cfg: &sc.cfg, defs: &sc.defs, nondeterministic_outputs: false, tainted: None };
         let mut vio = out.violations.clone();
         vio.extend(crate::oracle::check_eval(&ctx, &out, &r.plan, &mut probes));
         for v in vio {
